@@ -527,6 +527,16 @@ Example open_refusal_rows :
   mkdir_refusal (Ok e) = Some FileAlreadyExists /\ mkdir_refusal (Ok dir) = Some DirAlreadyExists.
 Proof. cbv zeta. repeat split; reflexivity. Qed.
 
+(* `resolves` is satisfiable: one volume (handle 1), its root directory open (handle 2) *)
+Example resolves_example :
+  let v := mk_vol 1 0 0 100 [] 1 10 1 None None None 5000 false 512 5 0 0 in
+  let dd := mk_dirinfo 2 1 CL_ROOT in
+  let s := mk_st (PositiveMap.empty block) zero_block None [v] [dd] [] 3 0 0 [] [] false 1 2 1 in
+  resolves s 2 0 dd 0 v /\ is_full (s_files s) (s_maxf s) = false /\ is_full (s_dirs s) (s_maxd s) = false /\
+  sfn_of_str [65; 46; 66] = Some [65; 32; 32; 32; 32; 32; 32; 32; 66; 32; 32] /\
+  dot_name [65; 32; 32; 32; 32; 32; 32; 32; 66; 32; 32] = false.
+Proof. cbv zeta. unfold resolves. repeat split; reflexivity. Qed.
+
 Print Assumptions find_directory_entry_reads_only.
 Print Assumptions write_new_directory_entry_result.
 Print Assumptions C07_open_dot_name.
@@ -539,3 +549,87 @@ Print Assumptions C07_delete_refusals.
 Print Assumptions C07_mkdir_refusals.
 Print Assumptions C07_write_read_only.
 Print Assumptions C07_write_read_only_any.
+
+(* ================================================================== addendum: open_dir (serves C06 and C07) *)
+(* pushing a directory record with a fresh id onto a table that has room *)
+Definition push_new_dir (s1 : st) (vol_id cluster : N) : st :=
+  set_s_dirs (set_s_next_id s1 ((s_next_id s1 + 1) mod U32))
+             (s_dirs s1 ++ [mk_dirinfo (s_next_id s1) vol_id cluster]).
+
+Lemma open_dir_tail s1 vol_id cluster : is_full (s_dirs s1) (s_maxd s1) = false ->
+  (id <- generate ;; push_dir (mk_dirinfo id vol_id cluster) ;;; ret id) s1 =
+  (Ok (s_next_id s1), push_new_dir s1 vol_id cluster).
+Proof.
+  intros Hf. rewrite (bind_ok _ _ _ _ _ (generate_spec s1)).
+  unfold push_dir. unfold bind at 1. rewrite bind_get.
+  cbn [s_dirs s_maxd set_s_next_id]. rewrite Hf. reflexivity.
+Qed.
+
+(* the decision table of open_dir, the handles resolving and the table having room:
+   - a name that does not parse: FilenameError, nothing changes;
+   - "." : a new handle on the SAME cluster and volume as d, no device call at all;
+   - otherwise the lookup decides: its error is passed on (NotFound for a missing name);
+     an entry without the directory attribute: OpenedFileAsDir; an entry with it: a new
+     handle on the entry's cluster (get_entry has already mapped a stored cluster 0 of a
+     directory entry to CL_ROOT, so ".." of a first-level directory designates the root)
+     on the volume of d.  In every case the state is the state s1 after the lookup - which
+     only read (reads_only s s1) - plus, on success, the pushed record. *)
+Theorem C06_open_dir : forall s d di dd vi v name,
+  resolves s d di dd vi v -> is_full (s_dirs s) (s_maxd s) = false ->
+  v_id v = d_vol dd /\
+  match sfn_of_str name with
+  | None => open_dir d name s = (Err FilenameError, s)
+  | Some sfn =>
+      if list_eqb sfn THIS_DIR_NAME
+      then open_dir d name s = (Ok (s_next_id s), push_new_dir s (v_id v) (d_cluster dd))
+      else forall r s1, find_directory_entry vi (d_cluster dd) sfn s = (r, s1) ->
+        reads_only s s1 /\
+        open_dir d name s =
+          match r with
+          | Ok e => if is_directory (e_attr e)
+                    then (Ok (s_next_id s1), push_new_dir s1 (v_id v) (e_cluster e))
+                    else (Err OpenedFileAsDir, s1)
+          | Err e => (Err e, s1)
+          | Panic => (Panic, s1)
+          | OutOfFuel => (OutOfFuel, s1)
+          end
+  end.
+Proof.
+  intros s d di dd vi v name Hres Hfull.
+  split; [exact (resolves_vol_id _ _ _ _ _ _ Hres)|].
+  pose proof Hres as (Hl & H1 & H2 & H3 & H4).
+  assert (Hpre : open_dir d name s =
+    match sfn_of_str name with
+    | None => fail FilenameError
+    | Some sfn =>
+        if list_eqb sfn THIS_DIR_NAME then
+          id <- generate ;; push_dir (mk_dirinfo id (v_id v) (d_cluster dd)) ;;; ret id
+        else
+          e <- find_directory_entry vi (d_cluster dd) sfn ;;
+          if negb (is_directory (e_attr e)) then fail OpenedFileAsDir else
+          id <- generate ;; push_dir (mk_dirinfo id (v_id v) (e_cluster e)) ;;; ret id
+    end s).
+  { unfold open_dir. rewrite (locked_free _ _ Hl), bind_get, Hfull.
+    rewrite (bind_ok _ _ _ _ _ H1), (bind_ok _ _ _ _ _ H2), (bind_ok _ _ _ _ _ H3), (bind_ok _ _ _ _ _ H4).
+    reflexivity. }
+  rewrite Hpre. destruct (sfn_of_str name) as [sfn|]; [|reflexivity].
+  destruct (list_eqb sfn THIS_DIR_NAME); [apply open_dir_tail; exact Hfull|].
+  intros r s1 Hfind.
+  pose proof (find_directory_entry_reads_only _ _ _ _ _ _ Hfind) as Hro.
+  split; [exact Hro|].
+  unfold bind at 1. rewrite Hfind.
+  destruct r as [e|e| |]; try reflexivity.
+  destruct (is_directory (e_attr e)); cbn [negb]; [|reflexivity].
+  apply open_dir_tail.
+  destruct Hro as ((_ & Hd & _ & _ & _ & _ & _ & Hm & _) & _). rewrite Hd, Hm. exact Hfull.
+Qed.
+
+(* the "." row does not touch the device: log, call counter, medium, cache are those of s *)
+Corollary C06_open_dir_this_no_device : forall s vol_id cluster,
+  s_trace (push_new_dir s vol_id cluster) = s_trace s /\ s_ncalls (push_new_dir s vol_id cluster) = s_ncalls s /\
+  s_disk (push_new_dir s vol_id cluster) = s_disk s /\ s_files (push_new_dir s vol_id cluster) = s_files s /\
+  s_vols (push_new_dir s vol_id cluster) = s_vols s.
+Proof. intros. repeat split; reflexivity. Qed.
+
+Print Assumptions C06_open_dir.
+Print Assumptions C06_open_dir_this_no_device.
